@@ -165,6 +165,59 @@ def rule_code(ctx, rep):
             r.finding("%s|Problem::%s|not-in-csv" % (mod, v), None, "variant has no row in problem-codes.csv")
 
 
+_CONT = {}
+
+
+def direct_read_gaps(ctx, T, b, ty):
+    """(E, field of T, child type) such that the non-recursing override `b` of visit_<ty> reads fields of the DSL type E (E != ty),
+    never touches field `f` of ty, and E occurs at or below the type of `f`."""
+    adts = ctx.facts.adts
+    dsl = {aid for aid, a in adts.items() if a["crate"] == "ironplc_dsl"}
+    if "c" not in _CONT:
+        _CONT["c"] = T.containment()
+    cont = _CONT["c"]
+
+    def closure(t0):
+        seen, st = set(), [t0]
+        while st:
+            x = st.pop()
+            if x in seen:
+                continue
+            seen.add(x)
+            st.extend(cont.get(x, ()))
+        return seen
+    tread, eread = set(), set()
+    bodies = [b] + [cb for cb in ctx.prog.bodies.values() if cb.f["dk"] == "Closure" and cb.f.get("parent") == b.id]
+    for bd in bodies:
+        closure_body = bd.f["dk"] == "Closure"
+        for _, _, pl in bd.place_uses():
+            rt = bd.root(pl) or pl
+            # a place reached from the node argument by field projections alone addresses one named child of the node ("this
+            # node's type_name"); only nodes obtained some other way (iteration, a call) are "every E of that collection" reads
+            own = (not closure_body) and rt[0] == 2
+            for pr in rt[1]:
+                if isinstance(pr, list) and pr[0] == "f":
+                    if pr[3] == ty:
+                        tread.add(pr[2])
+                    elif pr[3] in dsl and not own:
+                        eread.add(pr[3])
+    out = []
+    a = adts.get(ty)
+    if not a or not eread:
+        return out
+    for v in a["variants"]:
+        for fl in v["fields"]:
+            if fl["name"] in tread:
+                continue
+            kids = {m.group(0) for m in re.finditer(r"ironplc_dsl::[A-Za-z_:]*[A-Za-z_]", fl["ty"]) if m.group(0) in dsl}
+            for k in sorted(kids):
+                cl = closure(k)
+                for E in sorted(eread):
+                    if E in cl:
+                        out.append((E, fl["name"], k))
+    return out
+
+
 def rule_reach(ctx, rep):
     r = rep.rule("R-C02-reach", "a rule is applied wherever the construct it checks can occur: every overridden visit method is reachable from "
                                 "Library under the visitor's effective traversal; a non-recursing override cuts off no other target of the same "
@@ -196,6 +249,12 @@ def rule_reach(ctx, rep):
             if ("rv", ty) in es:
                 r.ok(inst, where, "continues the default recursion")
                 continue
+            # direct reads: a non-recursing override that inspects a descendant type E by hand must look at every field of T below
+            # which an E can occur (sibling paths to the same construct agree)
+            for E, f, via in direct_read_gaps(ctx, T, b, ty):
+                r.finding("%s|reads %s directly, ignores field %s" % (inst, E.split("::")[-1], f), where,
+                          "the override does not recurse and inspects %s nodes by hand, but %s nodes also occur below %s.%s (via %s), which it never looks at: "
+                          "the rule is not applied there" % (E.split("::")[-1], E.split("::")[-1], ty.split("::")[-1], f, via.split("::")[-1]))
             below = T.default_reach_from_type(ty)
             eff = {x for k, x in T.reach(es, ms) if k == "v"}
             miss = (below & set(ms)) - eff - {m}
